@@ -59,13 +59,13 @@ def settingsAst (c : List Int) : List Stmt :=
 def lightAst : Captured → List Stmt
   | .plain n c p =>
     settingsAst c ++
-      [.action (if p != 0 then .on else .off) (.cons (.light (.str n)) .nil),
-       .action .set (.cons (.light (.str n)) .nil)]
+      [.action (if p != 0 then .on else .off) true (.cons (.light (.str n)) .nil),
+       .action .set true (.cons (.light (.str n)) .nil)]
   | .multizone n zones =>
     (zones.zipIdx.map fun (z, i) =>
-      settingsAst z ++ [Stmt.action .set (.cons (.zone (.str n) ⟨lit i, none⟩) .nil)]).flatten
+      settingsAst z ++ [Stmt.action .set true (.cons (.zone (.str n) ⟨lit i, none⟩) .nil)]).flatten
   | .matrix n _ w cells =>
-    [.action .set (.cons (.matrixBlock (.str n) (Block.ofList
+    [.action .set true (.cons (.matrixBlock (.str n) (Block.ofList
       ((cells.zipIdx.map fun (c, k) =>
         settingsAst c ++ [Stmt.stage (some ⟨lit (k / w : Nat), none⟩) (some ⟨lit (k % w : Nat), none⟩)
           false]).flatten))) .nil)]
